@@ -34,6 +34,30 @@ PROPS = {
         'quick': 20000,
         'thorough': 500000,
     },
+    'C09': {
+        'level': 'exploration',
+        'strata': [('histories', 'container', 1.0)],
+        'quick': 12000,
+        'thorough': 300000,
+    },
+    'C10': {
+        'level': 'exploration',
+        'strata': [('label-histories', 'labels', 0.7), ('mixed-histories', 'container', 0.3)],
+        'quick': 12000,
+        'thorough': 300000,
+    },
+    'C11': {
+        'level': 'exploration',
+        'strata': [('copies-and-siblings', 'copies', 1.0)],
+        'quick': 10000,
+        'thorough': 250000,
+    },
+    'C12': {
+        'level': 'exploration',
+        'strata': [('reindex-histories', 'reindex', 1.0)],
+        'quick': 12000,
+        'thorough': 300000,
+    },
     'C17': {
         'level': 'exploration',
         'strata': [('triplets', 'tracer', 1.0)],
